@@ -23,6 +23,7 @@ Proof. exact shifts_differ_odd. Qed.
 Print Assumptions C11_shift_not_interchangeable.
 Example C11_shift_not_interchangeable_nonvacuous : (3 <= 5)%Z /\ (5 mod 2 = 1)%Z /\ (0 <= 4 < 5)%Z.
 Proof. exact (conj (Zle_bool_imp_le 3 5 eq_refl) (conj eq_refl (conj (Zle_bool_imp_le 0 4 eq_refl) eq_refl))). Qed.
+Print Assumptions C11_shift_not_interchangeable_nonvacuous.
 
 Theorem C11_shift_even_agree : forall n j : Z, (0 < n)%Z -> (n mod 2 = 0)%Z ->
   fftshift_src n j = ifftshift_src n j.
@@ -53,6 +54,7 @@ Proof. exact kcentres_full. Qed.
 Print Assumptions C11_kcentres.
 Example C11_kcentres_nonvacuous : (2 <= 5)%Z /\ 0 < (1 # 2) /\ (0 <= 3 < 5)%Z.
 Proof. exact (conj (Zle_bool_imp_le 2 5 eq_refl) (conj eq_refl (conj (Zle_bool_imp_le 0 3 eq_refl) eq_refl))). Qed.
+Print Assumptions C11_kcentres_nonvacuous.
 
 (* last axis of the real transform: n//2+1 cells, centre j is j/(n cell) = rfftfreq[j]
    (the non-negative half, unshifted) *)
@@ -169,6 +171,7 @@ Proof.
                 | S (S m) => fun H' => match Nat.lt_irrefl 2 (Nat.le_lt_trans 2 (S (S m)) 2 (le_n_S 1 (S m) (le_n_S 0 m (Nat.le_0_l m))) (proj2 H')) with end
                 end H))).
 Qed.
+Print Assumptions C11_inverse_nonvacuous.
 
 (* bins n-k and k are transforms with w and w^-1: the half spectrum 0..n//2 determines the rest
    for data fixed by conjugation (the real transform) *)
@@ -200,6 +203,7 @@ Qed.
 Print Assumptions C11_inverse_nd.
 Example C11_inverse_nd_nonvacuous : roots 0%Z 1%Z Z.add Z.mul [(-1)%Z; (-1)%Z] [2%nat; 2%nat] [1%nat; 0%nat].
 Proof. exact roots_nonvacuous. Qed.
+Print Assumptions C11_inverse_nd_nonvacuous.
 
 (* ---------------------------------------------------------------- arrays: inverse o forward *)
 (* the shifts of the inverse transforms undo those of the forward ones on every axis (all axes,
@@ -235,6 +239,7 @@ Example C11_inverse_field_nonvacuous :
   (forall ns x, length x = Z.to_nat (zprod ns) -> Gc ns (F ns x) = x) /\
   (forall ns x, length x = Z.to_nat (zprod ns) -> True -> Gr ns (half_spectrum tt true ns (F ns x)) = x).
 Proof. exact field_hyps_nonvacuous. Qed.
+Print Assumptions C11_inverse_field_nonvacuous.
 
 (* ---------------------------------------------------------------- real half, n-d *)
 (* the real transform's array is the non-negative-frequency half of the full one along the last
@@ -266,6 +271,7 @@ Print Assumptions C11_mesh_fftn.
 Example C11_mesh_fftn_nonvacuous :
   wf_mesh (mkMesh (mkRegion [0; 0] [4; 3] ["x"%string; "y"%string] ["m"%string; "m"%string] (1 # 1000)) [4%Z; 3%Z] "" []).
 Proof. exact wf_mesh_nonvacuous. Qed.
+Print Assumptions C11_mesh_fftn_nonvacuous.
 
 (* ---------------------------------------------------------------- Mesh.ifftn, all axes *)
 (* on every well-formed mesh with an accepted shape s (entries >= 1) whose names stay distinct
@@ -288,6 +294,7 @@ Example C11_mesh_ifftn_nonvacuous :
   wf_mesh k /\ ifft_shape (n k) true (ShList [4; 3]%Z) = OK [4; 3]%Z /\ length [4; 3]%Z = length (n k) /\
   Forall (fun j => (1 <= j)%Z) [4; 3]%Z /\ NoDup (map unkdim (dims (reg k))).
 Proof. exact mesh_ifftn_hyps_nonvacuous. Qed.
+Print Assumptions C11_mesh_ifftn_nonvacuous.
 
 (* Mesh.ifftn (Mesh.fftn m), all axes, every well-formed mesh, both kinds (the real kind given
    the original counts, odd sizes included): both calls succeed; original counts, dimension
@@ -323,6 +330,7 @@ Proof. exact ifft_shape_original. Qed.
 Print Assumptions C11_ifft_shape_original.
 Example C11_ifft_shape_original_nonvacuous : [4%Z; 5%Z] <> [] /\ ((zlast [4; 6] mod 2 = 0)%Z /\ (1 <= zlast [4; 6])%Z).
 Proof. exact shape_original_nonvacuous. Qed.
+Print Assumptions C11_ifft_shape_original_nonvacuous.
 
 (* ---------------------------------------------------------------- names *)
 (* reciprocal dimension names, units and component labels are undone by the inverse transforms *)
